@@ -9,8 +9,6 @@ set_*_cipher arguments.  Installed values == reference derivation for the RFC's 
 outbound == server inbound and vice versa, directions share nothing, and the bytes on the wire
 after NEWKEYS decode and verify under the *reference* keys with the independent decoder.
 """
-import itertools
-
 from vmc import core, fixtures as F, install, pktseam as P, sched as S, vsocket
 from vmc.refs import rfc4253 as R
 from paramiko.transport import Transport
@@ -226,8 +224,8 @@ def judge_handshake(cipher, mac, kex, obs, acc, replay):
                 for what, got, want in (("iv", iv_used, want_iv), ("key", key, want_key), ("mac-key", mkey, want_mk)):
                     acc.ev()
                     if got != want:
-                        bad("installed-%s-differs-from-rfc" % what,
-                            {"role": role, "direction": d + "bound", "exchange": "initial" if epoch == 0 else "re-key",
+                        bad("installed-value-differs-from-rfc",
+                            {"value": what, "role": role, "direction": d + "bound", "exchange": "initial" if epoch == 0 else "re-key",
                              "cipher-kind": kind, "mac": "-" if gcm else mac},
                             {"epoch": epoch, "letter": {"iv": li, "key": lk, "mac-key": lm}[what],
                              "got": got, "want": want})
@@ -239,16 +237,17 @@ def judge_handshake(cipher, mac, kex, obs, acc, replay):
                 for i, what in enumerate(("key", "iv", "mac-key")):
                     acc.ev()
                     if installed[a][i] != installed[b][i]:
-                        bad("peers-disagree-on-%s" % what, {"stream": name}, {"epoch": epoch})
+                        bad("peers-disagree-on-installed-value", {"value": what, "stream": name}, {"epoch": epoch})
         for role in ("client", "server"):
             a, b = (role, epoch, "out"), (role, epoch, "in")
             if a in installed and b in installed:
                 for i, what in enumerate(("key", "iv", "mac-key")):
                     acc.ev()
                     if installed[a][i] is not None and installed[a][i] == installed[b][i]:
-                        bad("directions-share-%s" % what, {"role": role}, {"epoch": epoch})
+                        bad("directions-share-installed-value", {"value": what, "role": role}, {"epoch": epoch})
     # wire: every packet each side wrote must verify under keys derived by the reference from K, H, session id
-    for role, direction in (("client", "c2s"), ("server", "s2c")):
+    # (skipped when an installed value is already known to be wrong: the wire failure would be its consequence)
+    for role, direction in (("client", "c2s"), ("server", "s2c")) if not found else ():
         o = obs[role]
         wire = o["wire"][1:]                     # [0] is the identification line
         sent = o["sent"]
@@ -331,8 +330,9 @@ def main(tier):
     P.regroup(ck, {"length": {"within-digest", "longer-than-digest"}, "session_id": {"equals-H", "differs-from-H"},
                    "hash": {"sha1", "sha256", "sha384", "sha512"}, "K": set(k for k, _ in K_VALUES),
                    "role": {"client", "server"}, "direction": {"inbound", "outbound"}, "stream": {"c2s", "s2c"},
-                   "exchange": {"initial", "re-key"}, "cipher-kind": {"ctr", "cbc", "3des", "gcm"},
-                   "mac": set(P.MACS) | {"-"}})
+                   "exchange": {"initial", "re-key"}, "cipher-kind": {"ctr", "cbc", "3des"},
+                   "value": {"iv", "key", "mac-key"},
+                   "mac": set(P.MACS)})
     ck.extra["bound"] = {"kex_classes_part_A": len(kex_cases(tier)), "K_values": len(K_VALUES), "n_max": NMAX,
                          "cipher_mac_pairs": 72, "handshakes": len([i for i in items if i[0] == "hs"])}
     return ck.finish()
